@@ -72,6 +72,9 @@ func program(c Case) string {
 		return "{|| raise ValueErr.new(\"g\") if " + cond + "; " + mk("N", "2") + "}()"
 	case "yield":
 		return "<{|| yield " + mk("Y", "5") + " if " + cond + "}>.new.next"
+	case "yield2":
+		// a guarded yield after an earlier yield: its condition is still evaluated and still ends the iterator when false
+		return "<{|| yield 7; yield 5 if " + cond + "}>.new.next"
 	case "defer":
 		return "{|| defer " + mk("D", "1") + " if " + cond + "; " + mk("N", "2") + "}()"
 	}
@@ -216,6 +219,10 @@ func (w *world) notOverBaseObj(e *E) bool {
 
 // judge runs the case; "" = agrees with the rule.
 func judge(c *Case) (sig, detail string) {
+	return interp.Guard(func() (string, string) { return judgeRaw(c) }, func() { vt.Discard("an evaluation of this case ran out of its budget (inconclusive)") })
+}
+
+func judgeRaw(c *Case) (sig, detail string) {
 	w, err := build(c.Vals)
 	if err != nil {
 		return "", "" // nothing to judge
@@ -271,6 +278,12 @@ func (w *world) judgeRound(c *Case) (sig, detail string) {
 		if truthy {
 			wantOut += "\nY"
 			wantShow = "5"
+		} else {
+			wantErr = "StopIterErr"
+		}
+	case "yield2":
+		if truthy {
+			wantShow = "7"
 		} else {
 			wantErr = "StopIterErr"
 		}
@@ -336,7 +349,9 @@ var flagPool = []string{"{B: m{flag}}", "{B: m{!flag}}", "{B: m{flag}}.bear", "I
 
 // zeroTable is the statement's list of built-in zero values (must be falsy) with truthy counterparts.
 var zeroTable = map[string]bool{"0": false, "0.0": false, `""`: false, "[]": false, "{}": false, "%{}": false, "nil": false, "false": false,
-	"1": true, "2.5": true, `"a"`: true, "[0]": true, "{a: nil}": true, "%{nil: nil}": true, "true": true, "-1": true}
+	"1": true, "2.5": true, `"a"`: true, "[0]": true, "{a: nil}": true, "%{nil: nil}": true, "true": true, "-1": true,
+	// values that are not the zero value of their type although they look empty through some accessor
+	"{_p: 1}": true, "1.try": true, "nil.try": true, "%{[1]: 2}": true, "[nil]": true, `" "`: true, "{a: {}}": true, "(0:0)": true}
 
 func TestZeroValueTable(t *testing.T) {
 	vt.SkipIfReplay(t)
@@ -359,7 +374,7 @@ func TestZeroValueTable(t *testing.T) {
 
 func leaf(i, m int) *E { return &E{K: "leaf", I: i, M: m} }
 
-var wrappers = []string{"expr", "return", "raise", "yield", "defer"}
+var wrappers = []string{"expr", "return", "raise", "yield", "defer", "yield2"}
 
 func run(t vt.Failer, c Case, fatal bool) {
 	vt.Eval()
